@@ -111,6 +111,91 @@ def run(ctx):
     fis = list(ctx.repo.module(GM).functions.values()) + list(ctx.repo.module("pandapower.toolbox.data_modification").functions.values())
     _lints.et_exact(ctx, "ET-EXACT", fis, minimum=10)
     rule_transform_guards(ctx)
+    rule_neutral_details(ctx)
+
+
+def rule_neutral_details(ctx):
+    import ast
+    import re
+    from ppsa.astutil import norm
+    R = "NEUTRAL-DETAIL"
+    ctx.rule(R, "merge_parallel_line writes back every line parameter it reads for the conversion (a parameter that depends on the "
+                "number of parallel systems and is not rescaled changes the line); the 'other end' of a branch is np.where(bus == A, B, "
+                "A); select_subnet keeps the tap characteristic rows referenced by the two-winding AND the three-winding "
+                "transformers of the selection")
+    fm = ctx.repo.func(f"{GM}:merge_parallel_line")
+    reads, writes = set(), set()
+    for st in ast.walk(fm.node):
+        if isinstance(st, ast.Assign):
+            for x in ast.walk(st.value):
+                if isinstance(x, ast.Subscript) and ast.unparse(x.value) == "net.line.at" and isinstance(x.slice, ast.Tuple) and \
+                        isinstance(x.slice.elts[1], ast.Constant):
+                    reads.add(x.slice.elts[1].value)
+            t = st.targets[0]
+            if isinstance(t, ast.Subscript) and ast.unparse(t.value) == "net.line.at" and isinstance(t.slice, ast.Tuple):
+                k = t.slice.elts[1]
+                if isinstance(k, ast.Constant):
+                    writes.add(k.value)
+                elif isinstance(k, ast.Name):
+                    # key is a loop variable over a literal sequence of tuples / strings
+                    for lp in ast.walk(fm.node):
+                        if isinstance(lp, ast.For) and st in list(ast.walk(lp)) and isinstance(lp.iter, (ast.Tuple, ast.List)):
+                            tg = lp.target
+                            pos = [i for i, e in enumerate(tg.elts) if isinstance(e, ast.Name) and e.id == k.id][0] if isinstance(tg, ast.Tuple) else None
+                            for e in lp.iter.elts:
+                                c = e.elts[pos] if pos is not None and isinstance(e, (ast.Tuple, ast.List)) else e
+                                if isinstance(c, ast.Constant):
+                                    writes.add(c.value)
+    if len(reads) < 5:
+        ctx.fail(f"merge_parallel_line: only {sorted(reads)} read from net.line.at (confirmed: 6 columns)")
+    lost = sorted(reads - writes)
+    ctx.ob(R, f"{GM}::merge_parallel_line::written-back", not lost,
+           f"all of {sorted(reads)} are written back" if not lost else
+           f"{lost} is read for the conversion but not written back: `parallel` becomes 1 while the value still is the one of a single "
+           "system, the merged line differs from the parallel lines it replaces", fm.loc())
+    n = 0
+    for mn in (GM, "pandapower.toolbox.element_selection", "pandapower.toolbox.power_factor", "pandapower.toolbox.data_modification"):
+        try:
+            m = ctx.repo.module(mn)
+        except Exception:
+            continue
+        for fi in m.functions.values():
+            for c in ast.walk(fi.node):
+                if not (isinstance(c, ast.Call) and ast.unparse(c.func) in ("np.where", "where") and len(c.args) == 3 and
+                        isinstance(c.args[0], ast.Compare) and len(c.args[0].ops) == 1 and isinstance(c.args[0].ops[0], ast.Eq)):
+                    continue
+                P = norm(c.args[0].comparators[0], 200)
+                a, b = norm(c.args[1], 200), norm(c.args[2], 200)
+                if not (re.search(r"from_bus|to_bus|hv_bus|lv_bus", P) and re.search(r"from_bus|to_bus|hv_bus|lv_bus", a + b) and a != b):
+                    continue
+                n += 1
+                ok = b == P and a != P
+                ctx.ob(R, f"{mn}::{fi.qualname}::other-end@{P[:30]}", ok,
+                       "other end = where(bus == A, B, A)" if ok else
+                       f"`{norm(c, 110)}` returns the compared end itself where the buses match: the 'other bus' of a branch is the bus "
+                       "the switch sits at, so an energised line behind an open switch is treated as isolated (or the reverse)", fi.loc(c))
+    if n < 1:
+        ctx.fail("NEUTRAL-DETAIL: no 'other end' selection found in the toolbox (confirmed: set_isolated_areas_out_of_service)")
+    fs = ctx.repo.func(f"{GM}:select_subnet")
+    cover = None
+    for st in ast.walk(fs.node):
+        if isinstance(st, ast.Assign) and isinstance(st.targets[0], ast.Subscript) and ast.unparse(st.targets[0].value) == "p2":
+            k = st.targets[0].slice
+            if isinstance(k, ast.Constant) and k.value == "trafo_characteristic_table":
+                cover = st
+            elif isinstance(k, ast.Name):
+                for lp in ast.walk(fs.node):
+                    if isinstance(lp, ast.For) and st in list(ast.walk(lp)) and isinstance(lp.iter, (ast.List, ast.Tuple)) and \
+                            any(isinstance(e, ast.Constant) and e.value == "trafo_characteristic_table" for e in lp.iter.elts):
+                        cover = cover or st
+    txt = ast.unparse(cover).replace('"', "'") if cover is not None else ""
+    ok = cover is not None and "'trafo3w'" in txt and "'trafo'" in txt
+    ctx.ob(R, f"{GM}::select_subnet::trafo_characteristic_table", ok,
+           "characteristic rows of trafo and trafo3w are kept" if ok else
+           ("trafo_characteristic_table is not copied into the sub-network" if cover is None else
+            f"`{norm(cover, 100)}` keeps the rows referenced by one transformer table only") +
+           ": a three-winding transformer with tap_dependency_table loses its characteristic and the sub-network computes other "
+           "impedances than the full network", fs.loc(cover) if cover is not None else fs.loc())
 
 
 def rule_transform_guards(ctx):
@@ -165,6 +250,10 @@ def variants(repo):
     V = Variant
     gm = "pandapower/toolbox/grid_modification.py"
     return [
+        V("merged line keeps the conductance of one system", gm, in_function("merge_parallel_line", replace_once('    net.line.at[idx, "g_us_per_km"] = g1\n', '')), "merge_parallel_line::written-back"),
+        V("twin: shunt parameters written in a loop", gm, in_function("merge_parallel_line", replace_once('    net.line.at[idx, "c_nf_per_km"] = c1\n    net.line.at[idx, "g_us_per_km"] = g1\n', '    for col, val1 in (("c_nf_per_km", c1), ("g_us_per_km", g1)):\n        net.line.at[idx, col] = val1\n')), None),
+        V("other bus is the switch bus", gm, in_function("set_isolated_areas_out_of_service", replace_once("np.where(j['bus'].values == j['from_bus'].values, j['to_bus'].values, j['from_bus'].values)", "np.where(j['bus'].values == j['to_bus'].values, j['to_bus'].values, j['from_bus'].values)")), "other-end"),
+        V("characteristics of trafo3w dropped from the sub-network", gm, in_function("select_subnet", lambda s: s.replace(' |\n            net["trafo_characteristic_table"].id_characteristic.isin(p2["trafo3w"].id_characteristic_table.values)]', ']', 1)), "select_subnet::trafo_characteristic_table"),
         Variant("impedance asymmetric in x only accepted", "pandapower/toolbox/grid_modification.py", replace_once("if not np.isclose(imp.rft_pu, imp.rtf_pu) or not np.isclose(imp.xft_pu, imp.xtf_pu):", "if not (np.isclose(imp.rft_pu, imp.rtf_pu) or np.isclose(imp.xft_pu, imp.xtf_pu)):"), "asymmetry-test"),
         Variant("sub-network loses the frequency", "pandapower/toolbox/grid_modification.py", replace_once('net_parameters = ["name", "f_hz"]', 'net_parameters = ["name"]'), "select_subnet::f_hz"),
         Variant("characteristic id offset by the number of ids", "pandapower/toolbox/grid_modification.py", replace_once("id_start = net1[elm_type].id_characteristic.max() + 1", "id_start = net1[elm_type].id_characteristic.nunique()"), "characteristic-id-offset"),
